@@ -160,6 +160,25 @@ def make_auth(rng, style, is_async):
         # payload both reach the handler as None)
         return isinstance(p, dict) and bool(p) and all(
             p.get(k) == v for k, v in cred.items())
+    if style == 'falsy_predicate':
+        # rejects by returning something falsy that is not False (an implicit
+        # None, 0, an empty string or dict), accepts with a truthy non-bool
+        def fpred(p):
+            if isinstance(p, dict) and p and all(
+                    p.get(k) == v for k, v in cred.items()):
+                return rng_pick(['yes', 1, {'ok': 1}, True])
+            return rng_pick([None, 0, '', {}, [], False])
+        state = {'n': 0}
+
+        def rng_pick(values):
+            state['n'] += 1
+            return values[state['n'] % len(values)]
+        if is_async and rng.random() < 0.5:
+            async def afpred(p):
+                return fpred(p)
+            return afpred, (lambda p: bool(fpred(p))), \
+                ['async-falsy-predicate', cred]
+        return fpred, (lambda p: bool(fpred(p))), ['falsy-predicate', cred]
     if style == 'partial_predicate':
         # what applications write: it indexes the payload, so it raises for
         # an absent payload, a non-dict, or a dict without the keys
@@ -182,7 +201,8 @@ def part_auth(ctx, k):
     rng = ctx.case_rng(k)
     kind = 'sync' if rng.random() < 0.5 else 'async'
     style = rng.choice(['dict', 'dict', 'list', 'list', 'predicate',
-                        'async_predicate', 'partial_predicate', 'false'])
+                        'async_predicate', 'partial_predicate',
+                        'falsy_predicate', 'false'])
     mode = rng.choice(['development', 'production'])
     read_only = rng.random() < 0.5
     auth, oracle, desc = make_auth(rng, style, kind == 'async')
